@@ -297,6 +297,25 @@ func OidBytes(oid asn1.ObjectIdentifier) []byte {
 	return bytes.Clone(asn1bytes[2:])
 }
 
+// parses the raw OID bytes (excluding the tag/length), returning an error (instead
+// of panicking) if they are not a well-formed OBJECT IDENTIFIER
+func ParseAsn1objectId(data []byte) (oid asn1.ObjectIdentifier, err error) {
+	dataWithTag, err := asn1.Marshal(asn1.RawValue{Class: asn1.ClassUniversal, Tag: asn1.TagOID, Bytes: data})
+	if err != nil {
+		return nil, fmt.Errorf("[ParseAsn1objectId] Marshal error: %w", err)
+	}
+
+	rest, err := asn1.Unmarshal(dataWithTag, &oid)
+	if err != nil {
+		return nil, fmt.Errorf("[ParseAsn1objectId] Unmarshal error: %w", err)
+	}
+	if len(rest) > 0 {
+		return nil, fmt.Errorf("[ParseAsn1objectId] trailing data")
+	}
+
+	return oid, nil
+}
+
 // decodes the raw OID bytes (excluding the tag/length)
 func DecodeAsn1objectId(data []byte) (oid asn1.ObjectIdentifier) {
 	var dataWithTag []byte
